@@ -1492,7 +1492,7 @@ pub fn run_c14(ctx: &Ctx) -> i32 {
     run_cases(ctx, "streams", n, &mut out, |idx, out| {
         let mut rng = Rng::for_case(ctx.seed, "C14.streams", idx);
         let mut case = gen_case(&mut rng, &Limits { max_samples: 12_000, max_blocks: 4, ..Limits::default() });
-        case.cfg.multithread = idx % 2 == 0;
+        case.cfg.multithread = idx % 8 < 4;
         case.cfg.workers = NonZeroUsize::new(1 + rng.usize_below(4));
         case.hint = false;
         let mut res = vec![];
